@@ -105,7 +105,9 @@ def query2(ctx) -> List[Ob]:
             jt = A.unparse(inner[0].target)
             for cond in [n for n in A.walk_no_nested(inner[0]) if isinstance(n, ast.If)]:
                 if A.unparse(cond.test) == f"{jt} not in {sub}":
-                    adds = {(A.unparse(c.func.value), A.unparse(c.args[0])) for c in method_calls(ast.Module(cond.body, []), "add") if c.args}
+                    # both recordings are direct, unconditional statements of that branch
+                    direct = [st.value for st in cond.body if isinstance(st, ast.Expr) and isinstance(st.value, ast.Call) and isinstance(st.value.func, ast.Attribute) and st.value.func.attr == "add"]
+                    adds = {(A.unparse(c.func.value), A.unparse(c.args[0])) for c in direct if c.args}
                     names = {a for a, _ in adds}
                     if any(x == v for _, x in adds) and any(x == jt for _, x in adds) and len(names) == 2:
                         good = True
@@ -184,6 +186,13 @@ def query3(ctx) -> List[Ob]:
     begin, end = params
     where = ctx.where(m)
     seeds = [s for s in A.walk_no_nested(m.node) if isinstance(s, ast.Assign) and isinstance(s.targets[0], ast.Name) and begin in A.names_in(s.value)]
+    # the visited set starts empty: the start block itself must be reachable again through a cycle
+    pre = [s for s in seeds if isinstance(s.value, (ast.Set, ast.List)) or (isinstance(s.value, ast.Call) and isinstance(s.value.func, ast.Name) and s.value.func.id == "set")]
+    visited_names = {A.unparse(c.func.value) for c in A.walk_no_nested(m.node) if isinstance(c, ast.Call) and isinstance(c.func, ast.Attribute) and c.func.attr == "add"}
+    for s_ in pre:
+        if A.unparse(s_.targets[0]) in visited_names:
+            out.append(bad("QUERY-3", m.qualname, "visited set starts empty", ctx.where(m, s_), f"the visited set is initialised with {A.unparse(s_.value)}: the start block is treated as already visited, so a cycle back to it ('{begin}' reaches '{begin}') is not found"))
+    seeds = [s for s in seeds if s not in pre or A.unparse(s.targets[0]) not in visited_names]
     key = "seeded with the successors of the start block"
     work = None
     if seeds and any(A.unparse(s.value) in (f"list(self.graph[{begin}].jump_targets)", f"list(self[{begin}].jump_targets)", f"deque(self.graph[{begin}].jump_targets)") for s in seeds):
